@@ -15,7 +15,8 @@ def run_tlc(specdir, module, cfg_text, workdir, workers=1, timeout=600, extra=No
     with open(cfg, "w") as fh:
         fh.write(cfg_text)
     meta = os.path.join(workdir, "meta_" + module)
-    cmd = ["java", "-XX:+UseParallelGC"]
+    # TLC unpacks its standard modules into <java.io.tmpdir>/tlc-*: keep that inside the scratch directory too
+    cmd = ["java", "-XX:+UseParallelGC", "-Djava.io.tmpdir=" + workdir]
     if heap:
         cmd.append("-Xmx" + heap)
     cmd += ["-Xss512m"]
